@@ -1,0 +1,117 @@
+//go:build verif
+
+package plugins
+
+import (
+	"encoding/json"
+
+	"google.golang.org/protobuf/proto"
+
+	"github.com/cube2222/octosql/execution"
+	"github.com/cube2222/octosql/octosql"
+	"github.com/cube2222/octosql/physical"
+	"github.com/cube2222/octosql/plugins/internal/plugins"
+)
+
+// This file re-exports the wire conversions of the internal package to the external verification harness.
+// Every function sends its argument through the real encoding (protobuf bytes, or the JSON transport used for
+// predicates) and decodes it again with the real decoder.
+
+func VerifWireValue(v octosql.Value) (octosql.Value, error) {
+	data, err := proto.Marshal(plugins.NativeValueToProto(v))
+	if err != nil {
+		return octosql.Value{}, err
+	}
+	var out plugins.Value
+	if err := proto.Unmarshal(data, &out); err != nil {
+		return octosql.Value{}, err
+	}
+	return out.ToNativeValue(), nil
+}
+
+func VerifWireType(t octosql.Type) (octosql.Type, error) {
+	data, err := proto.Marshal(plugins.NativeTypeToProto(t))
+	if err != nil {
+		return octosql.Type{}, err
+	}
+	var out plugins.Type
+	if err := proto.Unmarshal(data, &out); err != nil {
+		return octosql.Type{}, err
+	}
+	return out.ToNativeType(), nil
+}
+
+func VerifWireSchema(s physical.Schema) (physical.Schema, error) {
+	data, err := proto.Marshal(plugins.NativeSchemaToProto(s))
+	if err != nil {
+		return physical.Schema{}, err
+	}
+	var out plugins.Schema
+	if err := proto.Unmarshal(data, &out); err != nil {
+		return physical.Schema{}, err
+	}
+	return out.ToNativeSchema(), nil
+}
+
+func VerifWireRecord(r execution.Record) (execution.Record, error) {
+	data, err := proto.Marshal(plugins.NativeRecordToProto(r))
+	if err != nil {
+		return execution.Record{}, err
+	}
+	var out plugins.Record
+	if err := proto.Unmarshal(data, &out); err != nil {
+		return execution.Record{}, err
+	}
+	return out.ToNativeRecord(), nil
+}
+
+func VerifWireMetadataMessage(m execution.MetadataMessage) (execution.MetadataMessage, error) {
+	data, err := proto.Marshal(plugins.NativeMetadataMessageToProto(m))
+	if err != nil {
+		return execution.MetadataMessage{}, err
+	}
+	var out plugins.MetadataMessage
+	if err := proto.Unmarshal(data, &out); err != nil {
+		return execution.MetadataMessage{}, err
+	}
+	return out.ToNativeMetadataMessage(), nil
+}
+
+func VerifWirePhysicalVariableContext(c *physical.VariableContext) (*physical.VariableContext, error) {
+	data, err := proto.Marshal(plugins.NativePhysicalVariableContextToProto(c))
+	if err != nil {
+		return nil, err
+	}
+	var out plugins.PhysicalVariableContext
+	if err := proto.Unmarshal(data, &out); err != nil {
+		return nil, err
+	}
+	return out.ToNativePhysicalVariableContext(), nil
+}
+
+func VerifWireExecutionVariableContext(c *execution.VariableContext) (*execution.VariableContext, error) {
+	data, err := proto.Marshal(plugins.NativeExecutionVariableContextToProto(c))
+	if err != nil {
+		return nil, err
+	}
+	var out plugins.ExecutionVariableContext
+	if err := proto.Unmarshal(data, &out); err != nil {
+		return nil, err
+	}
+	return out.ToNativeExecutionVariableContext(), nil
+}
+
+// VerifTransportExpression sends a predicate the way PushDownPredicates / Materialize do: JSON, then the functions
+// are looked up again on the receiving side.
+func VerifTransportExpression(e physical.Expression) (physical.Expression, bool, error) {
+	data, err := json.Marshal(&e)
+	if err != nil {
+		return physical.Expression{}, false, err
+	}
+	var out physical.Expression
+	if err := json.Unmarshal(data, &out); err != nil {
+		return physical.Expression{}, false, err
+	}
+	out, ok := plugins.RepopulatePhysicalExpressionFunctions(out)
+	return out, ok, nil
+}
